@@ -948,7 +948,7 @@ func (c *Ctx) intervalsAreOrdered(rule string) {
 					continue
 				}
 				n++
-				ok := p.begin == p.end || engine.ProveLEAt(f, b, p.begin, p.end)
+				ok := p.begin == p.end || engine.ProveLEAt(f, b, p.begin, p.end) || orderedByHelper(P, p.begin, p.end)
 				R.Check(ok, rule, c.name(f)+"|"+p.tn+" begin<=end", P.Pos(p.pos.Pos()), "begin <= end proved on every path", "begin <= end is not entailed by the branch conditions on every path to this "+p.tn+" (a reversed or `*`-anchored range reaches the consumers unordered)")
 			}
 		}
@@ -1194,4 +1194,37 @@ func (c *Ctx) accumulatorBound(f *ssa.Function) (func(bound int64) bool, int) {
 		return true
 	}
 	return le, len(edges)
+}
+
+// orderedByHelper: a and b are results #i and #j of one call of a gluon function every (nil-error) return of which
+// returns values proved results[i] <= results[j] - the ordering of an interval done by a helper.
+func orderedByHelper(P *engine.Prog, a, b ssa.Value) bool {
+	ea, ok1 := a.(*ssa.Extract)
+	eb, ok2 := b.(*ssa.Extract)
+	if !ok1 || !ok2 || ea.Tuple != eb.Tuple {
+		return false
+	}
+	call, ok := ea.Tuple.(*ssa.Call)
+	if !ok {
+		return false
+	}
+	h := call.Call.StaticCallee()
+	if h == nil || len(h.Blocks) == 0 || !P.IsOwn(h) {
+		return false
+	}
+	n := 0
+	for _, ret := range engine.Returns(h) {
+		if len(ret.Results) <= ea.Index || len(ret.Results) <= eb.Index {
+			return false
+		}
+		if lr := engine.LastResult(ret); lr != nil && lr.Type().String() == "error" && !engine.IsNilConst(lr) {
+			continue
+		}
+		n++
+		x, y := ret.Results[ea.Index], ret.Results[eb.Index]
+		if x != y && !engine.ProveLEAt(h, ret.Block(), x, y) {
+			return false
+		}
+	}
+	return n > 0
 }
